@@ -579,6 +579,39 @@ pub fn event_frames() -> Value {
     json!({"violates": !bad.is_empty(), "input": {"cases": n}, "expected": "every event and error is one valid AWS event-stream message (lengths, both CRC-32s, string headers, payload unchanged) recovered in order by an independent decoder", "observed": bad, "replay_args": ["event-frames"]})
 }
 
+/// xml-docs: values encoded by the real restXml encoders (s3s::xml::Serialize / SerializeContent) and read back as text: a member the
+/// model declares as an XML ATTRIBUTE (Grantee's xsi:type) must be an attribute of its element, flattened lists repeat their
+/// element, wrapped lists wrap, absent members are absent
+pub fn xml_docs(a: &[String]) -> serde_json::Value {
+    let which = a.first().map(String::as_str).unwrap_or("all").to_owned();
+    use s3s::dto::*;
+    use s3s::xml;
+    fn content<T: xml::SerializeContent>(v: &T) -> String { let mut b = Vec::new(); { let mut s = xml::Serializer::new(&mut b); v.serialize_content(&mut s).unwrap(); } String::from_utf8(b).unwrap() }
+    fn doc<T: xml::Serialize>(v: &T) -> String { let mut b = Vec::new(); { let mut s = xml::Serializer::new(&mut b); v.serialize(&mut s).unwrap(); } String::from_utf8(b).unwrap() }
+    let mut bad: Vec<serde_json::Value> = Vec::new();
+    // 1. Grantee.Type: xmlAttribute + xmlName "xsi:type" in the model
+    let g = Grantee { display_name: Some("alice".into()), email_address: None, id: Some("75aa57f09aa0c8caeab4f8c24e99d10f8e7faeebf76c078efc7c6caea54ba06a".into()), type_: Type::from_static(Type::CANONICAL_USER), uri: None };
+    let grant = Grant { grantee: Some(g), permission: Some(Permission::from_static(Permission::FULL_CONTROL)) };
+    let t = content(&grant);
+    let attr_ok = t.contains("<Grantee") && t.split("<Grantee").nth(1).map_or(false, |r| r.split('>').next().map_or(false, |tag| tag.contains("xsi:type=\"CanonicalUser\"")));
+    if (which == "all" || which == "grantee") && (!attr_ok || t.contains("<xsi:type>")) {
+        bad.push(json!({"case": "Grantee.Type is an XML attribute (xsi:type) of <Grantee> in the API model", "expected": "<Grantee xmlns:xsi=\"http://www.w3.org/2001/XMLSchema-instance\" xsi:type=\"CanonicalUser\">…", "observed": t}));
+    }
+    // 2. a flattened list repeats its element, an absent member is absent, the root is the model's
+    let out = ListObjectsV2Output { name: Some("bkt".into()), contents: Some(vec![Object { key: Some("a".into()), ..Default::default() }, Object { key: Some("b".into()), ..Default::default() }]), ..Default::default() };
+    let d = doc(&out);
+    if which != "grantee" && !(d.contains("<ListBucketResult") && d.matches("<Contents>").count() == 2 && d.contains("<Name>bkt</Name>") && !d.contains("<Prefix>") && !d.contains("<Delimiter>")) {
+        bad.push(json!({"case": "ListObjectsV2Output", "observed": d}));
+    }
+    // 3. a wrapped list wraps its members under the declared member name
+    let tagging = Tagging { tag_set: vec![Tag { key: Some("k".into()), value: Some("v".into()) }] };
+    let d = doc(&tagging);
+    if which != "grantee" && !(d.contains("<Tagging") && d.contains("<TagSet><Tag><Key>k</Key><Value>v</Value></Tag></TagSet>")) {
+        bad.push(json!({"case": "Tagging", "observed": d}));
+    }
+    json!({"violates": !bad.is_empty(), "input": {"cases": 3}, "expected": "each member under the element / attribute the API model declares", "observed": bad, "replay_args": ["xml-docs", which]})
+}
+
 fn pct(s: &str) -> Option<String> {
     let b = s.as_bytes(); let mut out = Vec::new(); let mut i = 0;
     while i < b.len() {
